@@ -99,9 +99,12 @@ def prop(spec, rec):
     # 1. the law, step by step along a trajectory (each step judged from the actual state before it)
     b = build(spec)
     T_all = T
-    for step, pilot in enumerate(spec["pilots"]):
+    rep = int(spec.get("repeat", 1))
+    if rep > 1:
+        labels.add("battery_object_lives_through_%d_or_more_calls" % (50 if rep * len(spec["pilots"]) >= 50 else 10))
+    for step, pilot in enumerate(list(spec["pilots"]) * rep):
         # the period may change from one call to the next (a caller sub-stepping a period)
-        T = spec["periods"][step] if spec.get("periods") else T_all
+        T = spec["periods"][step % len(spec["pilots"])] if spec.get("periods") else T_all
         before = stored_charge(b)
         labels |= _regime(spec, before, pilot, T)
         if T != T_all:
@@ -132,6 +135,14 @@ def prop(spec, rec):
         b2.charge(pilot, V, T / 2)
         b2.charge(pilot, V, T / 2)
         require(abs(stored_charge(b1) - stored_charge(b2)) <= tol_c, "split_T", lambda: "T=%r: one step %.12g kWh, two half steps %.12g kWh" % (T, stored_charge(b1), stored_charge(b2)))
+        # ... and equals charging for T/n n times (a caller sub-stepping a period finely)
+        n = int(spec.get("split_n", 2))
+        if n > 2:
+            b3 = build(spec)
+            for _ in range(n):
+                b3.charge(pilot, V, T / n)
+            require(abs(stored_charge(b1) - stored_charge(b3)) <= tol_c, "split_T", lambda: "T=%r: one step %.12g kWh, %d steps of T/%d %.12g kWh" % (T, stored_charge(b1), n, n, stored_charge(b3)))
+            labels.add("period_split_into_many_steps")
 
         # 3. monotone in the pilot and in T
         def delivered(p, t):
@@ -274,6 +285,8 @@ def cases(draw):
         "pilot2": pilots[0] + draw(st.one_of(st.just(0.0), st.floats(1e-8, 100))),
         "reset_to": draw(st.one_of(st.none(), st.floats(0, 1.5).map(lambda f: f * cap))),
         "rk4": draw(st.integers(0, 19)) == 0,
+        "split_n": draw(st.sampled_from([2, 2, 3, 7, 16, 50])),
+        "repeat": draw(st.sampled_from([1, 1, 1, 1, 5, 25, 100])),
     }
 
 
@@ -285,7 +298,7 @@ def subchecks(tier):
             prop,
             quick=4000,
             thorough=600000,
-            floors={"crosses_transition": 0.03, "starts_in_rampdown": 0.1, "cont": 0.205, "ideal": 0.08, "step": 0.051, "integer_arguments": 0.1, "period_changes_between_calls": 0.083},
+            floors={"crosses_transition": 0.03, "starts_in_rampdown": 0.1, "cont": 0.205, "ideal": 0.08, "step": 0.051, "integer_arguments": 0.1, "period_changes_between_calls": 0.083, "period_split_into_many_steps": 0.15, "battery_object_lives_through_50_or_more_calls": 0.08},
         )
     ]
 
